@@ -83,7 +83,12 @@ package ovsdb
 //@ ensures !istype(value, "UUID") && !istype(value, "string") ==> (!result1 && result0 == value)
 
 // Expansion rewrites sets, string/UUID slices and maps in place and nothing else.
+//@ pred MappedName(k interface{}, names map[string]string) := (istype(k, "UUID") && (unbox(k, "UUID").GoUUID in names)) || (istype(k, "string") && (unbox(k, "string") in names))
 //@ func expandNamedUUID
+//@ requires column != nil && namedUUIDs != nil
+//@ requires forall n: string :: (n in namedUUIDs) ==> !(namedUUIDs[n] in namedUUIDs)
+//@ ensures column.Type == "map" && column.TypeObj.Key.Type == "uuid" && istype(value, "OvsMap") ==> (forall k: interface{} :: (k in unbox(value, "OvsMap").GoMap) ==> !MappedName(k, namedUUIDs))
+//@ loop 1 invariant keyType == "uuid" ==> (forall k: interface{} :: (k in m.GoMap) && MappedName(k, namedUUIDs) ==> !visited(k))
 //@ modifies unbox(value, "OvsSet").GoSet[*], unbox(value, "[]string")[*], unbox(value, "[]UUID")[*], unbox(value, "OvsMap").GoMap[*]
 //@ func expandColumnNamedUUIDs
 //@ modifies unbox(value, "OvsSet").GoSet[*], unbox(value, "[]string")[*], unbox(value, "[]UUID")[*], unbox(value, "OvsMap").GoMap[*]
